@@ -36,6 +36,18 @@ CHECKS = {
         "note": "Trusted: CPython ast, sympy; V(cell) = product of cell_volume_data factors. Not decided: whole-simulation consequence "
         "beyond linearity of explicit updates (C06), converged implicit iterations, round-off, one-sided divergence variants.",
     },
+    "C18": {
+        "level": "proof",
+        "technique": "static: abstract interpretation of the sparse-matrix assemblers (row loops case-split first/interior/last + concrete 2-cell shapes) compared with the extracted numba stencil after ghost elimination; store-order rule; path rule for the residual test",
+        "text": "All six Laplace-matrix assemblers (Cartesian 1-3d, polar, spherical, cylindrical) are interpreted from source with a "
+        "recording sparse matrix; for Dirichlet/Neumann/Mixed/Curvature/periodic conditions per side, r_min = 0 and r_min > 0, every "
+        "matrix row and vector entry is proved equal to the numba Laplace stencil with virtual points eliminated through "
+        "get_virtual_point_data (so solving the matrix problem is solving the discrete problem the operators define). Additionally: "
+        "no '=' after '+=' on one entry, every path of solve_poisson that writes the result passed an allclose(mat.dot(x), rhs) test, "
+        "and solve_laplace_equation delegates to the Poisson solver.",
+        "note": "Trusted: CPython ast, sympy, numpy C-order ravel, scipy.sparse dok semantics (=, +=, setdiag, *=). Symbolic rows assume "
+        "N >= 3 per axis, N = 2 covered concretely for 1-2 axes. Not decided: accuracy of spsolve/lsmr beyond the residual test.",
+    },
 }
 
 NOT_APPLICABLE: dict[str, str] = {}
